@@ -21,7 +21,7 @@ func init() {
 	register(&Rule{ID: "TS-FILTER-HDR", Floor: 3,
 		Doc: "in the referrers read handler every path to a body write of cached or filtered data has passed the ‘filter is empty’ edge or has set the OCI-Filters-Applied header",
 		Run: runFilterHdr})
-	register(&Rule{ID: "TS-PAGE", Floor: 2,
+	register(&Rule{ID: "TS-PAGE", Floor: 5,
 		Doc: "the referrers splitter appends a page to its result only on the ‘len(page) ≤ limit’ edge of that same page; the handler serves the unsplit response only on the ‘len ≤ limit’ edge",
 		Run: runPage})
 	register(&Rule{ID: "TS-SORT", Floor: 1,
@@ -400,6 +400,8 @@ func runPage(c *core.Ctx) {
 			}
 		}
 	}
+	// handler: a page counter taken from the request is applied only to the response it was issued for
+	runPageCounter(c, r)
 	// handler: unsplit response only on the ≤ edge
 	for _, fn := range serverFuncs(c) {
 		var splitCall *ssa.Call
@@ -802,4 +804,228 @@ func triggerOf(c *core.Ctx, r *Roles, b *ssa.BasicBlock) string {
 		return "cmp:" + d(x) + "~" + d(y)
 	}
 	return ""
+}
+
+// runPageCounter: in the referrers handler, wherever pages[page] is served with a page number that comes from the
+// request, either the pages were looked up by the digest the request itself named (cache=…), or the page number is
+// the request's only on edges that established ‘the request's cache digest equals the digest of this response’ (or
+// ‘page is not positive’); on all other edges it is the constant 0.
+func runPageCounter(c *core.Ctx, r *Roles) {
+	c.SetTags("snapshot")
+	defer c.SetTags()
+	for _, fn := range serverFuncs(c) {
+		// the request's page number and cache digest
+		var pageVal, cacheStr ssa.Value
+		an.Calls(fn, func(call ssa.CallInstruction) {
+			if !an.IsMethod(call, "net/url", "Values", "Get") {
+				return
+			}
+			_, args := an.CallArgs(call)
+			if len(args) != 1 {
+				return
+			}
+			k, _ := an.ConstString(args[0])
+			switch k {
+			case "cache":
+				cacheStr = call.Value()
+			case "page":
+				// strconv.Atoi(query) result
+				if call.Value() != nil && call.Value().Referrers() != nil {
+					for _, ref := range *call.Value().Referrers() {
+						if cc, ok := ref.(*ssa.Call); ok && an.IsFunc(cc, "strconv", "Atoi") {
+							pageVal = cc
+						}
+					}
+				}
+			}
+		})
+		if pageVal == nil || cacheStr == nil {
+			continue
+		}
+		fromPage := func(v ssa.Value) bool {
+			seen := map[ssa.Value]bool{}
+			var walk func(v ssa.Value, d int) bool
+			walk = func(v ssa.Value, d int) bool {
+				if v == nil || d > 10 || seen[v] {
+					return false
+				}
+				seen[v] = true
+				switch x := v.(type) {
+				case *ssa.Extract:
+					return x.Tuple == pageVal
+				case *ssa.Phi:
+					for _, e := range x.Edges {
+						if walk(e, d+1) {
+							return true
+						}
+					}
+				case *ssa.UnOp:
+					if x.Op == token.MUL {
+						if st, unk := an.CellStores(x.X); !unk {
+							for _, s := range st {
+								if walk(s.Val, d+1) {
+									return true
+								}
+							}
+						}
+					}
+				}
+				return false
+			}
+			return walk(v, 0)
+		}
+		k := 0
+		an.Instrs(fn, func(in ssa.Instruction) {
+			ia, ok := in.(*ssa.IndexAddr)
+			if !ok || !fromPage(ia.Index) {
+				return
+			}
+			sl, ok := ia.X.Type().Underlying().(*types.Slice)
+			if !ok {
+				return
+			}
+			if _, ok := sl.Elem().Underlying().(*types.Slice); !ok {
+				return
+			}
+			k++
+			key := fmt.Sprintf("page-counter:%s#%d", kn(c.P.FuncName(fn)), k)
+			// the digest this response is identified by: the digest-typed field of the key of the nearest cache
+			// access that dominates (or is in the block of) the use
+			var respDig ssa.Value
+			an.Calls(fn, func(call ssa.CallInstruction) {
+				if !an.IsMethod(call, c.P.Module+"/internal/cache", "Cache", "Get") && !an.IsMethod(call, c.P.Module+"/internal/cache", "Cache", "Set") {
+					return
+				}
+				if !(call.Block() == ia.Block() || call.Block().Dominates(ia.Block())) {
+					return
+				}
+				_, args := an.CallArgs(call)
+				if len(args) == 0 {
+					return
+				}
+				for _, vals := range structStores(an.Strip(args[0])) {
+					for _, v := range vals {
+						if strings.HasSuffix(v.Type().String(), "go-digest.Digest") {
+							respDig = v
+						}
+					}
+				}
+			})
+			if respDig == nil {
+				c.Undecided(key, ia.Pos(), "pages[page] at %s: the digest identifying the pages could not be determined", c.P.Pos(ia.Pos()))
+				return
+			}
+			// (a) looked up by the digest the request named
+			if ex, ok := an.Origin(respDig).(*ssa.Extract); ok {
+				if pc, ok := ex.Tuple.(*ssa.Call); ok && an.IsFunc(pc, "github.com/opencontainers/go-digest", "Parse") && an.Origin(pc.Call.Args[0]) == an.Origin(cacheStr) {
+					c.Pass(key, ia.Pos(), "the pages served at %s were looked up by the digest the request itself named", c.P.Pos(ia.Pos()))
+					return
+				}
+			}
+			// (b) every edge on which the request's number survives established the match (or page ≤ 0)
+			isMatchCond := func(cond ssa.Value) (matchOnTrue bool, ok bool) {
+				base, neg := an.CondBase(cond)
+				bo, isBin := base.(*ssa.BinOp)
+				if !isBin || (bo.Op != token.EQL && bo.Op != token.NEQ) {
+					return false, false
+				}
+				isCache := func(v ssa.Value) bool { return an.Origin(v) == an.Origin(cacheStr) }
+				isResp := func(v ssa.Value) bool {
+					call, _ := an.CallOf(an.Strip(v))
+					if call == nil || !an.IsMethod(call, "github.com/opencontainers/go-digest", "Digest", "String") {
+						return false
+					}
+					recv, _ := an.CallArgs(call)
+					return sameSource(recv, respDig)
+				}
+				if !((isCache(bo.X) && isResp(bo.Y)) || (isCache(bo.Y) && isResp(bo.X))) {
+					return false, false
+				}
+				m := bo.Op == token.EQL
+				if neg {
+					m = !m
+				}
+				return m, true
+			}
+			isNonPositive := func(cond ssa.Value) (npOnTrue bool, ok bool) {
+				base, neg := an.CondBase(cond)
+				bo, isBin := base.(*ssa.BinOp)
+				if !isBin || !fromPage(bo.X) {
+					return false, false
+				}
+				z, isC := an.ConstInt(bo.Y)
+				if !isC || z != 0 {
+					return false, false
+				}
+				var np bool
+				switch bo.Op {
+				case token.GTR:
+					np = false
+				case token.LEQ, token.EQL:
+					np = true
+				default:
+					return false, false
+				}
+				if neg {
+					np = !np
+				}
+				return np, true
+			}
+			justified := func(edges []an.Edge) bool {
+				for _, g := range edges {
+					if m, ok := isMatchCond(g.If().Cond); ok && ((g.Succ == 0) == m) {
+						return true
+					}
+					if np, ok := isNonPositive(g.If().Cond); ok && ((g.Succ == 0) == np) {
+						return true
+					}
+				}
+				return false
+			}
+			bad := token.NoPos
+			var check func(v ssa.Value, at *ssa.BasicBlock, d int)
+			seenPhi := map[*ssa.Phi]bool{}
+			check = func(v ssa.Value, at *ssa.BasicBlock, d int) {
+				if d > 6 || bad != token.NoPos {
+					return
+				}
+				if phi, ok := v.(*ssa.Phi); ok && !seenPhi[phi] {
+					seenPhi[phi] = true
+					for i, e := range phi.Edges {
+						if _, isC := e.(*ssa.Const); isC || !fromPage(e) {
+							continue
+						}
+						p := phi.Block().Preds[i]
+						edges := an.GuardingEdges(p)
+						if ifi := an.BlockIf(p); ifi != nil {
+							for si, sb := range p.Succs {
+								if sb == phi.Block() {
+									edges = append(edges, an.Edge{From: p, Succ: si})
+								}
+							}
+						}
+						if justified(edges) {
+							continue
+						}
+						// the operand may itself be a phi that was justified earlier
+						if inner, ok := e.(*ssa.Phi); ok {
+							check(inner, p, d+1)
+							continue
+						}
+						bad = phi.Pos()
+						if bad == token.NoPos {
+							bad = ia.Pos()
+						}
+					}
+					return
+				}
+				// the raw request value used directly
+				if !justified(an.GuardingEdges(at)) {
+					bad = ia.Pos()
+				}
+			}
+			check(ia.Index, ia.Block(), 0)
+			c.Check(bad == token.NoPos, key, ia.Pos(), "the page number the request supplied reaches pages[page] at %s only on edges that established that the request's cache digest is the digest of this response (or that the number is not positive): %v — otherwise page N of a newer response is served to a client that holds pages 0..N-1 of an older one, and entries that changed place in between are skipped or repeated", c.P.Pos(ia.Pos()), bad == token.NoPos)
+		})
+	}
 }
